@@ -172,7 +172,7 @@ class FakeInfo:
 
 
 def atom_text(a):
-    q = lambda s: json.dumps(s)  # noqa: E731
+    q = lambda s: "\"" + s + "\""  # noqa: E731  (the grammar has no escape character: what is between the quotes is the value)
     k = a[0]
     if k == "eq":
         return f"{a[1]} = {q(a[2])}"
